@@ -16,7 +16,7 @@ fn n_for(t: Tier) -> usize {
 }
 
 /// Iterator sources: 0 = Vec, 1 = custom exact-size iterator, 2 = array (len <= 8), 3 = Vec::drain of a longer Vec
-const SOURCES: [&str; 4] = ["Vec", "custom", "array", "drain"];
+const SOURCES: [&str; 6] = ["Vec", "custom", "array", "drain", "lying: claims the length, yields one fewer", "lying: claims the length, yields one more"];
 
 fn arr<E, const K: usize>(it: &mut impl Iterator<Item = E>) -> [E; K] {
     std::array::from_fn(|_| it.next().unwrap())
@@ -50,6 +50,16 @@ fn do_insert<E: Elem>(t: &mut TooDee<E>, op: &str, i: usize, items: Vec<E>, sour
                 7 => call!(arr::<E, 7>(&mut it)),
                 _ => call!(arr::<E, 8>(&mut it)),
             }
+        }
+        4 | 5 => {
+            // an ExactSizeIterator that reports `n` but yields n-1 (4) or n+1 (5) elements
+            let mut items = items;
+            if source == 4 {
+                items.pop();
+            } else {
+                items.push(E::make(999));
+            }
+            call!(FaultIter::lying(items, n))
         }
         3 => {
             // a drain of the middle of a longer Vec (exact-size, double-ended, owning)
@@ -86,9 +96,34 @@ fn run_shape<E: Elem>(c: usize, r: usize, ctx: &mut Ctx) {
                                 let items: Vec<E> = line.iter().map(|l| E::make(*l)).collect();
                                 let valid = if row { m.insert_row_ok(i, len) } else { m.insert_col_ok(i, len) };
                                 let res = guarded(|| do_insert(&mut t, op, i, items, source));
-                                let held_extra = if source == 3 { 0 } else { 0 };
-                                let _ = held_extra;
-                                match (valid, res.is_ok()) {
+                                // an iterator that yields fewer items than it reports must be rejected (mid-way);
+                                // one that yields more may be rejected (debug assertion) or accepted with the
+                                // reported number of items
+                                let must_panic = !valid || (source == 4 && len > 0);
+                                let may_panic = valid && source == 5;
+                                let verdict = match (must_panic, res.is_ok()) {
+                                    (false, true) => (true, true),
+                                    (false, false) if may_panic => (false, false),
+                                    (false, false) => (true, false),
+                                    (true, ok) => (false, ok),
+                                };
+                                match verdict {
+                                    (true, true) if source == 5 => {
+                                        // accepted although the iterator yields more than it reports: WHICH of its
+                                        // items end up in the array is not specified; the array must be valid and
+                                        // have grown by one line
+                                        cs.outcome("inserted-from-long-iterator");
+                                        let before = (m.cols, m.rows);
+                                        let grew = if row { (if before.1 == 0 { len } else { before.0 }, before.1 + 1) } else { (before.0 + 1, if before.0 == 0 { len } else { before.1 }) };
+                                        if len > 0 && t.size() != grew {
+                                            cs.fail("insert:dims", format!("size() = {:?}, expected {:?}", t.size(), grew));
+                                        }
+                                        if valid_array(&t, cs, "after insertion from an over-long iterator") {
+                                            drop(t);
+                                        } else {
+                                            std::mem::forget(t);
+                                        }
+                                    }
                                     (true, true) => {
                                         cs.outcome("inserted");
                                         cs.nontrivial((E::NAME, c, r, op, i, len, spare, source));
@@ -150,6 +185,56 @@ fn run_shape<E: Elem>(c: usize, r: usize, ctx: &mut Ctx) {
     }
 }
 
+/// Arrays of `()` with close to usize::MAX cells: insertion arithmetic must not overflow as long as
+/// the result still fits. Only insertions whose work is proportional to the small dimension are run.
+fn run_huge_zst(ctx: &mut Ctx) {
+    let m = usize::MAX;
+    // (cols, rows, insert a row?)
+    let cases: Vec<(usize, usize, bool)> = vec![(3, m / 3 - 1, true), (1, m - 1, true), (5, m / 5 - 1, true), (2, m / 2 - 1, true), (m / 3 - 1, 3, false), (m - 1, 1, false), (m / 5 - 1, 5, false), (1 << 31, 1 << 31, false), (1 << 31, 1 << 31, true)];
+    for (c, r, row) in cases {
+        let (dim, other) = if row { (r, c) } else { (c, r) };
+        if other > 8 {
+            // the fill loop runs `other` times
+            if !(c == 1 << 31) {
+                continue;
+            }
+            continue;
+        }
+        for i in [0usize, 1, dim / 2, dim - 1, dim, dim + 1, usize::MAX] {
+            for len in [other, other + 1, other.saturating_sub(1)] {
+                ctx.case(
+                    || format!("TooDee<()> {}x{} {}({}, {} items)", c, r, if row { "insert_row" } else { "insert_col" }, i, len),
+                    |cs| {
+                        let mut t: TooDee<()> = TooDee::init(c, r, ());
+                        let valid = i <= dim && len == other;
+                        let items: Vec<()> = vec![(); len];
+                        let res = guarded(|| if row { t.insert_row(i, items) } else { t.insert_col(i, items) });
+                        match (valid, res.is_ok()) {
+                            (true, true) => {
+                                cs.outcome("inserted");
+                                cs.nontrivial((c, r, row, i, len));
+                                let expect = if row { (c, r + 1) } else { (c + 1, r) };
+                                if t.size() != expect || t.data().len() != expect.0 * expect.1 {
+                                    cs.fail("insert:huge-dims", format!("size {:?} with {} cells, expected {:?}", t.size(), t.data().len(), expect));
+                                }
+                            }
+                            (true, false) => cs.fail("insert:panics-on-valid", format!("valid insertion into a huge zero-sized array panicked: {}", res.unwrap_err())),
+                            (false, false) => {
+                                cs.outcome("rejected");
+                                let (nc, nr) = t.size();
+                                if nc.checked_mul(nr) != Some(t.data().len()) || (nc == 0) != (nr == 0) {
+                                    cs.fail("invalid-after-reject:len", format!("size {:?} with {} cells", t.size(), t.data().len()));
+                                }
+                            }
+                            (false, true) => cs.fail("insert:accepts-invalid", format!("index {} / length {} accepted, size now {:?}", i, len, t.size())),
+                        }
+                    },
+                );
+            }
+        }
+    }
+}
+
 impl Prop for C06P {
     fn id(&self) -> &'static str {
         "C06"
@@ -167,9 +252,14 @@ impl Prop for C06P {
                 v.push(format!("{} {}x{}", tag, c, r));
             }
         }
+        v.push("hugezst".into());
         v
     }
     fn run_unit(&self, unit: &str, ctx: &mut Ctx) {
+        if unit == "hugezst" {
+            run_huge_zst(ctx);
+            return;
+        }
         let (tag, dims) = unit.split_once(' ').unwrap();
         let (c, r) = dims.split_once('x').unwrap();
         let (c, r): (usize, usize) = (c.parse().unwrap(), r.parse().unwrap());
@@ -184,7 +274,7 @@ impl Prop for C06P {
         true
     }
     fn rule(&self) -> String {
-        "every shape (0..=N)^2 x {insert_row, push_row, insert_col, push_col} x every index 0..=dim+1 x every supplied length 0..=otherdim+1 x element type {u32, Tracked (drop ledger), TrackedZst (zero-sized)} x spare capacity {0, 1, 2, 3, 5, 24} (so that growth is needed, partially needed or not needed) x iterator source {Vec, custom exact-size double-ended iterator, array, Vec::drain}. \
+        "every shape (0..=N)^2 x {insert_row, push_row, insert_col, push_col} x every index 0..=dim+1 x every supplied length 0..=otherdim+1 x element type {u32, Tracked (drop ledger), TrackedZst (zero-sized)} x spare capacity {0, 1, 2, 3, 5, 24} (so that growth is needed, partially needed or not needed) x iterator source {Vec, custom exact-size double-ended iterator, array, Vec::drain, an iterator that yields one item fewer than it reports (must be rejected), one that yields one more (rejected or accepted with the reported count)}; plus insertions into arrays of () with close to usize::MAX cells. \
          Valid per the statement (index <= dim and length == other dim, or array empty) => no panic, result equals the model insertion cell for cell, the dimension grew by one (or stayed (0,0)), ledger balanced; otherwise => panic, and the array is still valid (shape invariant, every cell live and distinct, droppable without a double drop). \
          A case is the full tuple; non-trivial = accepted insertion; distinct by the tuple."
             .into()
